@@ -126,14 +126,21 @@ class SandboxCoverageTracer(SandboxBasicTracer):
         self.p = patch('coverage.python.get_python_source', _get_source_correctly)
         self.p.start()
         #coverage.python.get_python_source = _get_source_correctly
+        self._trace_before = sys.gettrace()
         self.coverage = coverage.Coverage()
         self.coverage.start()
         self._owner = threading.get_ident()
         self._depth = 1
 
     def _stop(self):
+        by_owner = threading.get_ident() == self._owner
         self._owner = None
         self.coverage.stop()
+        if by_owner and sys.gettrace() is not self._trace_before:
+            # The measurement takes itself off lazily, and the code that ran may
+            # have installed a trace function of its own: put back what was
+            # there before (in the thread that started the measurement)
+            sys.settrace(self._trace_before)
         self.coverage.save()
         # Restore the get_python_source reader
         #coverage.python.get_python_source = self.original
